@@ -185,4 +185,78 @@ namespace Aggkit.BridgeAPI
 theorem C12_code_facts : Gen.CertFacts.binarySearchDivider = "2" := by decide
 end Aggkit.BridgeAPI
 
+namespace BridgeAPI
+/-! ### the leaf handed out for a claim on the L2: `/injected-l1-info-leaf` -/
+
+theorem foldMin_spec : ∀ (l : List Nat) (acc : Option Nat),
+    (∀ m, l.foldl (fun acc k => match acc with | none => some k | some a => some (min a k)) acc = some m →
+      (m ∈ l ∨ acc = some m) ∧ (∀ x ∈ l, m ≤ x) ∧ (∀ a, acc = some a → m ≤ a)) ∧
+    ((acc.isSome ∨ l ≠ []) → (l.foldl (fun acc k => match acc with | none => some k | some a => some (min a k)) acc).isSome) := by
+  intro l
+  induction l with
+  | nil =>
+    intro acc
+    refine ⟨fun m h => ?_, fun h => ?_⟩
+    · simp only [List.foldl_nil] at h
+      exact ⟨Or.inr h, fun x hx => by simp at hx, fun a ha => by rw [h] at ha; cases ha; exact Nat.le_refl _⟩
+    · rcases h with h | h
+      · simpa using h
+      · exact absurd rfl h
+  | cons k rest ih =>
+    intro acc
+    simp only [List.foldl_cons]
+    cases acc with
+    | none =>
+      obtain ⟨h1, h2⟩ := ih (some k)
+      refine ⟨fun m h => ?_, fun _ => h2 (Or.inl rfl)⟩
+      obtain ⟨a, b, c⟩ := h1 m h
+      have hk := c k rfl
+      refine ⟨Or.inl ?_, ?_, fun a ha => by cases ha⟩
+      · rcases a with a | a
+        · exact List.mem_cons_of_mem _ a
+        · cases a; exact List.mem_cons_self ..
+      · intro x hx
+        rcases List.mem_cons.mp hx with e | e
+        · rw [e]; exact hk
+        · exact b x e
+    | some a0 =>
+      obtain ⟨h1, h2⟩ := ih (some (min a0 k))
+      refine ⟨fun m h => ?_, fun _ => h2 (Or.inl rfl)⟩
+      obtain ⟨a, b, c⟩ := h1 m h
+      have hk := c _ rfl
+      refine ⟨?_, ?_, fun a' ha' => by cases ha'; omega⟩
+      · rcases a with a | a
+        · exact Or.inl (List.mem_cons_of_mem _ a)
+        · cases a
+          by_cases hle : a0 ≤ k
+          · right; rw [Nat.min_eq_left hle]
+          · left; rw [Nat.min_eq_right (by omega)]; exact List.mem_cons_self ..
+      · intro x hx
+        rcases List.mem_cons.mp hx with e | e
+        · rw [e]; omega
+        · exact b x e
+
+/-- **the injected leaf**: for a claim on the L2 the API hands out the FIRST L1 info leaf at or after the requested index
+    whose global exit root has been injected on that L2 (a claim against any other leaf would be rejected by the bridge
+    contract, which only knows injected roots); it finds one whenever one exists -/
+theorem C12_injected_leaf (injected : List Nat) (i : Nat) :
+    (∀ k, firstInjectedAfter injected i = some k → k ∈ injected ∧ i ≤ k ∧ ∀ j ∈ injected, i ≤ j → k ≤ j) ∧
+    ((∃ j ∈ injected, i ≤ j) → (firstInjectedAfter injected i).isSome) := by
+  unfold firstInjectedAfter
+  obtain ⟨h1, h2⟩ := foldMin_spec (injected.filter (fun k => decide (i ≤ k))) none
+  refine ⟨fun k hk => ?_, fun ⟨j, hj, hij⟩ => ?_⟩
+  · obtain ⟨a, b, _⟩ := h1 k hk
+    rcases a with a | a
+    · have := List.mem_filter.mp a
+      exact ⟨this.1, by simpa using this.2, fun j hj hij => b j (List.mem_filter.mpr ⟨hj, by simpa using hij⟩)⟩
+    · cases a
+  · apply h2
+    right
+    intro he
+    have : j ∈ injected.filter (fun k => decide (i ≤ k)) := List.mem_filter.mpr ⟨hj, by simpa using hij⟩
+    rw [he] at this; simp at this
+
+example : firstInjectedAfter [5, 2, 9] 3 = some 5 ∧ firstInjectedAfter [5, 2, 9] 10 = none := by decide
+end BridgeAPI
+
 end Aggkit
